@@ -16,6 +16,7 @@ mod sched;
 mod slots;
 mod stub;
 mod types;
+mod yelem;
 
 use std::process::exit;
 
@@ -170,9 +171,9 @@ fn selfcheck() -> i32 {
     let mut bad = 0;
     let mut n = 0;
     for kind in [Kind::Linear, Kind::Spline, Kind::Probe1, Kind::Bilinear, Kind::Probe2] {
-        for elem in [Elem::F64, Elem::F32] {
+        for elem in [Elem::F64, Elem::F32, Elem::Yf] {
             for storage in [Storage::Owned, Storage::View, Storage::Shared, Storage::DataView] {
-                for dimty in [DimTy::Ix1, DimTy::Ix2, DimTy::Ix3, DimTy::IxDyn] {
+                for dimty in [DimTy::Ix1, DimTy::Ix2, DimTy::Ix3, DimTy::Ix4, DimTy::Ix5, DimTy::IxDyn] {
                     for min in 0..5 {
                         if !slots::supported(kind, elem, storage, dimty, min) {
                             continue;
